@@ -121,6 +121,9 @@ def _ops(max_len):
         st.tuples(st.just("substitute-placeholders"), ref, st.integers(1, 15), st.booleans()).map(list),
         st.tuples(st.just("substitute-placeholders"), ref, st.integers(1, 15), st.booleans()).map(list),
         # a generation that fails below `depth` containers
+        # make_required with a caller-owned collection of keys (set / list / tuple), which must come back untouched
+        st.tuples(st.just("make-required-keys"), ref, st.integers(0, 15), st.sampled_from(["set", "list", "tuple", "set"])).map(list),
+        st.tuples(st.just("make-required-keys"), ref, st.integers(0, 15), st.sampled_from(["set", "list", "tuple", "set"])).map(list),
         st.tuples(st.just("failing-fake"), st.integers(0, 3), st.integers(0, 6)).map(list),
         st.tuples(st.just("failing-fake"), st.integers(0, 3), st.integers(3, 6)).map(list),
     )
@@ -276,6 +279,8 @@ def _fingerprint(fn):
     from d42.declaration import Schema
     try:
         out = fn()
+    except Violation:
+        raise
     except Exception as e:  # noqa
         return ("raised", type(e).__name__, str(e)[:300]), None
     if isinstance(out, Schema):
@@ -450,6 +455,26 @@ def check(case, ctx):
 
                     def thunk(s=s, val=val):
                         return substitute(s, val)
+            elif name == "make-required-keys":
+                s = w.schema(op[1])
+                keys = _declared_keys(s)
+                if keys:
+                    chosen = [k for j, k in enumerate(keys) if (op[2] >> (j % 4)) & 1] or keys[:1]
+                    if op[2] == 15:
+                        chosen = chosen + ["no-such-key"]       # (raises: the argument must survive that too)
+                    try:
+                        coll = {"set": set, "list": list, "tuple": tuple}[op[3]](chosen)
+                    except TypeError:
+                        coll = list(chosen)
+                    before_keys = copy.copy(coll)
+
+                    def thunk(s=s, coll=coll, before_keys=before_keys):
+                        try:
+                            return make_required(s, coll)
+                        finally:
+                            if coll != before_keys or type(coll) is not type(before_keys):
+                                raise Violation("argument-mutated", f"make_required({s!r}, keys) changed its keys argument "
+                                                                    f"from {before_keys!r} to {coll!r}")
             elif name == "failing-fake":
                 def thunk(kind=op[1], depth=op[2]):
                     from .. import panel
@@ -549,13 +574,13 @@ def check(case, ctx):
                                     f"by d42: now {obj!r}")
         # ---- after the history: a fixed panel of seeded generations gives what it gives in a process without history
         from .. import panel
-        mine = _fingerprint(panel.run)[0]
+        mine = _fingerprint(lambda: panel.run() + panel.run_ops())[0]
         mine = ["raised", mine[1]] if mine[0] == "raised" else ["value", mine[1]]
         ref_fp = _panel_reference()
         if ref_fp is not None:
             if mine != ref_fp:
                 raise Violation("history-dependent-generation",
-                                f"after this history the fixed panel of seeded generations (pbt/panel.py) gives "
+                                f"after this history the fixed panel of seeded generations and conversions (pbt/panel.py) gives "
                                 f"{_first_diff(mine, ref_fp)}")
             ctx.label("panel-compared")
     finally:
